@@ -21,7 +21,7 @@ EXPLANATION = (
     "row and written only as assignment[row-1] = col-1 under guards excluding unmatched, dummy-row and dummy-column "
     "entries, from the column-match table the augmentation wrote; (O3) reflection for maximise is `max - cost` over "
     "the user's matrix, applied exactly when minimize is false, and dummy cells hold one constant in both modes (so "
-    "padding cannot favour a row); working matrix side is max(rows, cols). (O5) the running minima of the augmenting search are updated under exact comparisons. NOT decided: optimality over all "
+    "padding cannot favour a row); working matrix side is max(rows, cols). (O5) the running minima of the augmenting search are updated under exact comparisons. (O6) the steps of the augmenting search (start per row, scan, move, flip along the path). NOT decided: optimality over all "
     "matchings, the potential/slack updates, that no column is used twice (follows from col_match being a function "
     "of the column, checked, plus the algorithm's invariants, not checked)."
 )
@@ -121,6 +121,15 @@ def run(ctx: Ctx):
                     exact = (l_ == vv and r_ == tt and op_ in (ast.Lt, ast.LtE)) or (l_ == tt and r_ == vv and op_ in (ast.Gt, ast.GtE))
                     ctx.ob("C10-O5", "R30 ACCUMULATOR-PAIRING", f, f"running minimum `{tt}` is updated under the exact comparison with `{vv}`", exact, f"`{test_t}`: with a tolerance a strictly shorter alternating path is not recorded, the search augments along a non-shortest path and the matching is not minimal", node=n)
     ctx.floor("running minima in solve_hungarian", n_min, 2)
+    # O6 the steps of the row-by-row augmenting search
+    from .sat_common import _need
+
+    _need(ctx, "C10-O6", "R16 PAIRED-EFFECTS", f, "every row (dummy rows included) starts a search from the virtual column 0 with fresh slacks and marks", ["for i in range(1, n + 1):\n        col_match[0] = i\n        current_col = 0\n        min_slack = [float('inf')] * (n + 1)\n        used = [False] * (n + 1)"])
+    _need(ctx, "C10-O6", "R16 PAIRED-EFFECTS", f, "each step marks the current column, takes its matched row, scans the unmarked columns for the reduced cost of that row, and moves to the column of minimum slack", ["while col_match[current_col] != 0:", "used[current_col] = True\n            matched_row = col_match[current_col]\n            delta = float('inf')\n            next_col = 0", "for j in range(1, n + 1):\n                if not used[j]:\n                    reduced_cost = matrix[matched_row - 1][j - 1] - row_potential[matched_row] - col_potential[j]", "augment_path[j] = current_col", "if min_slack[j] < delta:\n                        delta = min_slack[j]\n                        next_col = j", "current_col = next_col"])
+    _need(ctx, "C10-O6", "R16 PAIRED-EFFECTS", f, "the dual step raises the potentials of the marked columns' rows and lowers those columns; unmarked columns only lose slack", ["for j in range(n + 1):\n                if used[j]:\n                    row_potential[col_match[j]] += delta\n                    col_potential[j] -= delta\n                else:\n                    min_slack[j] -= delta"])
+    _need(ctx, "C10-O6", "R16 PAIRED-EFFECTS", f, "the search ends at a free column; the matching is flipped along the recorded path back to column 0", ["while current_col != 0:\n            prev_col = augment_path[current_col]\n            col_match[current_col] = col_match[prev_col]\n            current_col = prev_col"])
+    _need(ctx, "C10-O6", "R18 table", f, "potentials, match table and path table cover the n columns plus the virtual column 0", ["row_potential = [0.0] * (n + 1)\n    col_potential = [0.0] * (n + 1)\n    col_match = [0] * (n + 1)\n    augment_path = [0] * (n + 1)"])
+    _need(ctx, "C10-O6", "R1 STATUS-GUARD", f, "an empty matrix (no rows or no columns) gives the empty assignment", ["if not cost_matrix or not cost_matrix[0]:\n        return Result([], 0.0, 0, 0)", "n_rows = len(cost_matrix)\n    n_cols = len(cost_matrix[0])"])
     generic_sweeps(ctx)
 
 
@@ -212,6 +221,11 @@ def _v_cached_work_matrix(tree):
     tree.body[idx:idx] = M.stmts("from functools import lru_cache\n@lru_cache(maxsize=64)\ndef _work_matrix(n):\n    return [[0.0] * n for _ in range(n)]")
 
 
+def _v_path_not_recorded(tree):
+    g = M.find_func(tree, "solve_hungarian")
+    M.replace_stmt(g, lambda s: M.src_is(s, "augment_path[j] = current_col"), [])
+
+
 def _v_slack_tolerance(tree):
     g = M.find_func(tree, "solve_hungarian")
     M.replace_expr(g, lambda e: M.src_is(e, "reduced_cost < min_slack[j]"), M.expr("reduced_cost < min_slack[j] - 1e-09"))
@@ -239,6 +253,7 @@ VARIANTS = [
     M.Variant("twin: dual update skipped for a zero step", HU, _t_skip_zero_step, None),
     M.Variant("padded work matrix comes from an lru_cache and keeps the padding of the previous call (seed C10-D)", HU, _v_cached_work_matrix, "C10-G3"),
     M.Variant("slack scan ignores improvements below an absolute tolerance (seed C10-F)", HU, _v_slack_tolerance, "C10-O5"),
+    M.Variant("the alternating path is not recorded when a slack improves", HU, _v_path_not_recorded, "C10-O6"),
     M.Variant("twin: reformat", HU, _t_reformat, None),
     M.Variant("twin: rename assignment / objective / working matrix", HU, _t_rename, None),
 ]
